@@ -10,6 +10,7 @@ import (
 	"net/netip"
 	"os"
 	"runtime/debug"
+	"slices"
 	"sort"
 	"strconv"
 	"strings"
@@ -77,7 +78,7 @@ func run(r *core.R) {
 	r.FaultDecl("stale_pool_cache", "stale_block_cache", "api_conflict_injected", "api_error_before_effect", "api_commit_then_error",
 		"ipam_release_error", "controller_crash", "controller_restart", "informer_initial_list_late", "apiserver_clock_skew", "env_action_inside_reconcile")
 	r.ProbeDecl("reconcile_started", "api_conflict_stale_rv", "api_not_found", "finalizer_added", "finalizer_removed_from_terminating",
-		"finalizer_removed_from_nonactive", "pool_deleted_by_finalizer_removal", "release_affinities_called",
+		"finalizer_removed_from_nonactive", "pool_deleted_by_finalizer_removal", "release_affinities_called", "pool_with_foreign_finalizer", "foreign_finalizer_released",
 		"pool_equal_timestamp_overlap", "pool_older_timestamp_newcomer", "pool_nested_inside_existing", "pool_covers_existing", "pool_same_cidr",
 		"pool_v6", "pool_recreated_same_name", "newcomer_vs_allocatable", "protection_voided_contested", "protection_ended_by_admin",
 		"protected_pool_checked_at_quiescence", "mask_obligation_started", "mask_obligation_ended_by_disable", "mask_obligation_held_at_quiescence",
@@ -366,6 +367,8 @@ func (h *harness) afterAPIChange() {
 
 // ---------------------------------------------------------------- environment actions (admin, IPAM, watch delivery)
 
+const foreignFinalizer = "example.com/audit-hold"
+
 func (h *harness) envAction() {
 	r := h.r
 	switch r.Src.Weighted(h.envW, "env_op") {
@@ -414,6 +417,22 @@ func (h *harness) envAction() {
 		}
 	case 3:
 		if p := h.pickPool("touch_target"); p != nil {
+			if slices.Contains(p.Finalizers, foreignFinalizer) && p.DeletionTimestamp != nil && r.Src.Chance(500, "foreign_finalizer_released") {
+				p.Finalizers = slices.DeleteFunc(slices.Clone(p.Finalizers), func(f string) bool { return f == foreignFinalizer })
+				r.Probe("foreign_finalizer_released")
+				if len(p.Finalizers) == 0 {
+					gone := h.api.adminDelete(p)
+					r.Op("the foreign finalizer of %s is released (gone=%v)", poolLine(p), gone)
+					if gone {
+						h.onPoolGone(p)
+					}
+				} else {
+					h.api.adminUpdate(p)
+					r.Op("the foreign finalizer of %s is released", poolLine(p))
+				}
+				h.afterAPIChange()
+				return
+			}
 			p.Spec.NATOutgoing = !p.Spec.NATOutgoing
 			h.api.adminUpdate(p)
 			r.Op("admin edits an unrelated field of %s", poolLine(p))
@@ -525,6 +544,13 @@ func (h *harness) actCreatePool() bool {
 		}
 	}
 	p := h.api.createPool(name, pfx, disabled, ts)
+	if r.Src.Chance(150, "pool_foreign_finalizer") {
+		// somebody else's finalizer (an operator's hold, foregroundDeletion): the pool outlives the controller's own
+		// finalizer and stays terminating until that party lets go
+		p.Finalizers = append(p.Finalizers, foreignFinalizer)
+		h.api.adminUpdate(p)
+		r.Probe("pool_with_foreign_finalizer")
+	}
 	r.Op("admin creates %s", poolLine(p))
 	h.onCreate(p, pfx)
 	h.afterAPIChange()
